@@ -16,6 +16,7 @@ import (
 	"regexp"
 	"strings"
 	"sync"
+	"sync/atomic"
 	"syscall"
 	"time"
 )
@@ -203,15 +204,35 @@ func Run(bin, cwd string, env []string, timeout time.Duration, stdin []byte, arg
 }
 
 // Tool runs the built gontainer with the sanitised environment.
-func (w *WS) Tool(cwd string, args ...string) Result {
-	return Run(w.Bin, cwd, w.SaneEnv(), 120*time.Second, nil, args...)
+func (w *WS) Tool(cwd string, args ...string) Result { return w.ToolBin(w.Bin, cwd, nil, args...) }
+
+// toolTimeouts counts tool runs that hit the watchdog. A normal run takes ~15 ms; the first watchdog waits 120 s
+// (a loaded machine must never produce a false hang), later ones 20 s, and after 5 of them 8 s: a tree that hangs
+// must not turn a check into hours of waiting.
+var toolTimeouts int32
+
+func toolTimeout() time.Duration {
+	switch n := atomic.LoadInt32(&toolTimeouts); {
+	case n == 0:
+		return 120 * time.Second
+	case n < 5:
+		return 20 * time.Second
+	}
+	return 8 * time.Second
 }
+
+// ToolTimeouts reports how many tool runs were stopped by the watchdog in this process.
+func ToolTimeouts() int { return int(atomic.LoadInt32(&toolTimeouts)) }
 
 func (w *WS) ToolBin(bin, cwd string, env []string, args ...string) Result {
 	if env == nil {
 		env = w.SaneEnv()
 	}
-	return Run(bin, cwd, env, 120*time.Second, nil, args...)
+	r := Run(bin, cwd, env, toolTimeout(), nil, args...)
+	if r.TimedOut {
+		atomic.AddInt32(&toolTimeouts, 1)
+	}
+	return r
 }
 
 // Go runs a go command in dir with the machinery's Go environment.
